@@ -151,6 +151,8 @@ def alphabet(kind, tier="quick", idset="std"):
         A(["add_fleeting_bond", 0, ABSENT])
         A(["add_formed_bond", 0, 0])
         A(["add_bond", a, b, {"kw": {"reaction": "formed"}}])          # wrong type
+        A(["add_bond", a, b, {"kw": {"reaction": None}}])              # wrong type (an explicit None is not 'no label')
+        A(["add_bond", pairs[1][0], pairs[1][1], {"kw": {"reaction": None, "x": 1}}])
         A(["set_bond_attribute", a, b, "reaction", "Change.BROKEN"])
         A(["set_bond_attribute", a, b, "reaction", "formed"])            # wrong type
         A(["set_bond_attribute", a, b, "reaction", None])                # wrong type
@@ -180,6 +182,9 @@ def alphabet(kind, tier="quick", idset="std"):
         A(["set_atom_stereo_change", {"kw": {"fleeting": t1}}])
         A(["set_atom_stereo_change", {"kw": {"fleeting": sp}}])
         A(["set_atom_stereo_change", {"kw": {"broken": t1, "formed": t3}}])      # two centres
+        A(["set_atom_stereo_change", {"kw": {"broken": t1, "fleeting": t3, "formed": t2}}])   # the odd centre in the middle
+        A(["set_atom_stereo_change", {"kw": {"broken": t3, "fleeting": t1, "formed": t2}}])   # the odd centre first
+        A(["set_bond_stereo_change", {"kw": {"broken": pb, "fleeting": ab, "formed": pb}}])   # three labels, odd bond in the middle
         A(["set_atom_stereo_change", {"kw": {}}])                                 # no centre
         A(["set_atom_stereo_change", {"kw": {"formed": D("Tetrahedral", (ABSENT, 0, 1, 2, None), 1)}}])
         A(["set_bond_stereo_change", {"kw": {"formed": pb}}])
